@@ -55,18 +55,6 @@ def handle (args : List String) : String :=
       | .error e => errStr e
       | .ok s => s!"r={natsStr s.rs};u={natsStr s.us};ymsg={hexBytes s.ymsg};umsg={hexBytes s.umsg}"
     | _, _, _, _ => "bad-op"
-  -- b32 <v>: bytes32 alone
-  | ["b32", v] =>
-    match natOfHex v with
-    | some v => match Vole.bytes32 v with
-      | some b => hexBytes b
-      | none => "panic"
-    | none => "bad-op"
-  -- prg <label>
-  | ["prg", l] =>
-    match natOfHex l with
-    | some l => hexFixed 64 (Vole.prgAes (BitVec.ofNat 128 l))
-    | none => "bad-op"
   -- fx <rl:8 hex> <a> <b>
   | ["fx", rl, a, b] =>
     match natOfHex rl, a.toNat?, b.toNat? with
